@@ -68,45 +68,110 @@ func c27Drain(c *engine.Ctx, p *engine.Prog) {
 	if f == nil {
 		return
 	}
-	info := f.Info()
 	opsF := p.Field(c27DB + ".BatchCollector.ops")
 	delF := p.Field(c27DB + ".collectOp.del")
 	keyF, valF := p.Field(c27DB+".collectOp.key"), p.Field(c27DB+".collectOp.val")
-	isDel := func(e ast.Expr) bool { return sfFieldSel(info, e, delF) }
-	var loop *ast.RangeStmt
-	engine.InspectBody(f, func(x ast.Node) {
-		if rs, ok := x.(*ast.RangeStmt); ok && sfFieldSel(info, rs.X, opsF) {
-			loop = rs
+	isDel := sfIsField(delF)
+	// the destination batch is Drain's parameter; ops come from ranging over c.ops
+	dels := sfDeepCallsTo(f, 2, c27DB+".(Batch).Delete")
+	sets := sfDeepCallsTo(f, 2, c27DB+".(Batch).Set")
+	inOpsLoop := func(d sfDS) bool {
+		for x, node := d.ctx, ast.Node(d.site.Node); x != nil; x, node = x.parent, nil {
+			if node == nil {
+				break
+			}
+			found := false
+			info := x.fn.Info()
+			engine.InspectBody(x.fn, func(y ast.Node) {
+				if rs, ok := y.(*ast.RangeStmt); ok && sfFieldSel(info, rs.X, opsF) && sfWithin(rs.Body, node) {
+					found = true
+				}
+			})
+			if found {
+				return true
+			}
+			if x.parent != nil {
+				// the helper is called from inside the loop
+				pinfo := x.parent.fn.Info()
+				engine.InspectBody(x.parent.fn, func(y ast.Node) {
+					if rs, ok := y.(*ast.RangeStmt); ok && sfFieldSel(pinfo, rs.X, opsF) && sfWithin(rs.Body, x.call) {
+						found = true
+					}
+				})
+				return found
+			}
 		}
-	})
+		return false
+	}
+	onlyDelAndErr := func(facts []sfFact) bool {
+		for _, ft := range facts {
+			e := ast.Unparen(ft.e)
+			if b, isB := e.(*ast.BinaryExpr); isB && (b.Op == token.LAND || b.Op == token.LOR) {
+				continue
+			}
+			if u, isU := e.(*ast.UnaryExpr); isU && u.Op == token.NOT {
+				continue
+			}
+			if isDel(ft.ctx, e) || sfErrCmp(ft.ctx.fn.Info(), e) {
+				continue
+			}
+			if id, isId := e.(*ast.Ident); isId && sfSingleDef(ft.ctx.fn, ft.ctx.fn.Info().ObjectOf(id)) != nil {
+				continue
+			}
+			return false
+		}
+		return true
+	}
+	recvIsDst := func(d sfDS) bool {
+		se, ok := ast.Unparen(d.site.Call.Fun).(*ast.SelectorExpr)
+		return ok && sfRootParam(d.ctx, se.X) == 0
+	}
+	errOK := func(d sfDS) bool {
+		return sfErrHandled(d.ctx.fn, d.site.Call, false) || c27ReturnsCall(d.ctx.fn, d.site.Call)
+	}
 	n := 0
-	dels, sets := f.CallsTo(c27DB+".(Batch).Delete"), f.CallsTo(c27DB+".(Batch).Set")
-	ok := loop != nil && len(dels) == 1 && len(sets) == 1
-	if ok {
-		d, s := dels[0], sets[0]
-		ok = sfWithin(loop.Body, d.Node) && sfWithin(loop.Body, s.Node) &&
-			sfHolds(f, d, true, isDel) && sfHolds(f, s, false, isDel) &&
-			sfIsParam(f, ast.Unparen(d.Call.Fun).(*ast.SelectorExpr).X, 0) && sfIsParam(f, ast.Unparen(s.Call.Fun).(*ast.SelectorExpr).X, 0) &&
-			sfFieldSel(info, d.Call.Args[0], keyF) && sfFieldSel(info, s.Call.Args[0], keyF) && sfFieldSel(info, s.Call.Args[1], valF) &&
-			sfErrHandled(f, d.Call, false) && sfErrHandled(f, s.Call, false) &&
-			len(sfOtherGates(f, d, func(e ast.Expr) bool { return isDel(ast.Unparen(e)) || c22IsErrNil(e) })) == 0 &&
-			len(sfOtherGates(f, s, func(e ast.Expr) bool { return isDel(ast.Unparen(e)) || c22IsErrNil(e) })) == 0
+	ok := len(dels) >= 1 && len(sets) >= 1
+	for _, d := range dels {
+		facts := d.facts()
+		ok = ok && inOpsLoop(d) && recvIsDst(d) && sfKnown(facts, true, isDel) && onlyDelAndErr(facts) && errOK(d) &&
+			sfOperandIs(d.ctx, d.arg(0), sfIsField(keyF))
+	}
+	for _, d := range sets {
+		facts := d.facts()
+		ok = ok && inOpsLoop(d) && recvIsDst(d) && sfKnown(facts, false, isDel) && onlyDelAndErr(facts) && errOK(d) &&
+			sfOperandIs(d.ctx, d.arg(0), sfIsField(keyF)) && sfOperandIs(d.ctx, d.arg(1), sfIsField(valF))
 	}
 	n++
 	c.Check("drain-replay", f.Name+" replays every op (delete→Delete, else→Set(key,val)) and returns errors", f.Pos(), ok, "every staged op must reach the destination batch, in order, with errors propagated")
 	// the op log is cleared only after the replay
-	cleared := false
-	engine.InspectBody(f, func(x ast.Node) {
-		as, isAs := x.(*ast.AssignStmt)
-		if isAs && len(as.Lhs) == 1 && sfFieldSel(info, as.Lhs[0], opsF) && loop != nil && as.Pos() > loop.End() {
-			cleared = true
-		}
-		if isAs && len(as.Lhs) == 1 && sfFieldSel(info, as.Lhs[0], opsF) && loop != nil && as.Pos() < loop.Pos() {
-			ok = false
-		}
-	})
+	cleared, early := false, false
+	for _, cx := range sfCtxs(sfRoot(f), 2, nil) {
+		info := cx.fn.Info()
+		engine.InspectBody(cx.fn, func(x ast.Node) {
+			as, isAs := x.(*ast.AssignStmt)
+			if !isAs || len(as.Lhs) != 1 || !sfFieldSel(info, as.Lhs[0], opsF) {
+				return
+			}
+			st := cx.fn.SiteOf(as)
+			if st == nil {
+				return
+			}
+			me := sfDS{cx, st}
+			after := true
+			for _, d := range append(append([]sfDS{}, dels...), sets...) {
+				if sfDomDS(me, d) || !sfReachAfterDS(d, me) {
+					after = false
+				}
+			}
+			if after {
+				cleared = true
+			} else {
+				early = true
+			}
+		})
+	}
 	n++
-	c.Check("drain-replay", f.Name+" clears the log after the replay only", f.Pos(), cleared && ok, "")
+	c.Check("drain-replay", f.Name+" clears the log after the replay only", f.Pos(), cleared && !early, "")
 	c.Floor("drain-replay", n, 2)
 }
 
@@ -117,7 +182,7 @@ func c27RootDBUse(c *engine.Ctx, p *engine.Prog) {
 		c.Undecided("root-db-use", c27RM+".multiStore.db", "field not found")
 		return
 	}
-	allowedArgOf := map[string]bool{c27RM + ".getLatestVersion": true, c27RM + ".getCommitInfo": true, c27DB + ".NewImmutableDB": true}
+	allowedArgOf := map[string]bool{c27DB + ".NewImmutableDB": true}
 	n := 0
 	counts := map[string]int{}
 	for _, f := range p.Funcs() {
@@ -162,7 +227,7 @@ func c27RootDBUse(c *engine.Ctx, p *engine.Prog) {
 					switch {
 					case c27ReadMethods[m]:
 						ok2 = true
-					case m == "NewBatch" && f.Name == c27MS+"Commit":
+					case m == "NewBatch" && sfCallerClosureOK(p, f.Root().Name, map[string]bool{c27MS + "Commit": true}, 3):
 						ok2 = true
 						counts["newbatch"]++
 					default:
@@ -174,7 +239,7 @@ func c27RootDBUse(c *engine.Ctx, p *engine.Prog) {
 			case *ast.CallExpr: // argument
 				callee := sfCallee(info, u)
 				kind = "arg of " + callee
-				ok2 = allowedArgOf[callee]
+				ok2 = allowedArgOf[callee] || c27ReadOnlyParam(p, info, u, sel, 3)
 				if !ok2 {
 					why = "root DB passed to " + callee + " (not in the read-only table)"
 				}
@@ -193,7 +258,7 @@ func c27RootDBUse(c *engine.Ctx, p *engine.Prog) {
 					kind, why = "field write", "multiStore.db reassigned"
 				} else {
 					kind = "assigned to local"
-					ok2 = f.Name == c27MS+"constructStore"
+					ok2 = sfCallerClosureOK(p, f.Root().Name, map[string]bool{c27MS + "constructStore": true}, 3)
 					why = "root DB copied to a local outside constructStore"
 				}
 			default:
@@ -208,9 +273,9 @@ func c27RootDBUse(c *engine.Ctx, p *engine.Prog) {
 	// read-only helpers really are read-only on their db parameter
 	k := 0
 	for _, name := range []string{"getLatestVersion", "getCommitInfo"} {
-		f := c.MustFunc(c27RM + "." + name)
+		f := p.Func(c27RM + "." + name)
 		if f == nil {
-			continue
+			continue // renamed/inlined: every hand-over of ms.db is checked semantically above (read-only parameter)
 		}
 		dbp := paramObj(f, 0)
 		par := sfParents(f.Body)
@@ -226,10 +291,10 @@ func c27RootDBUse(c *engine.Ctx, p *engine.Prog) {
 		k++
 		c.Check("root-db-use", c27RM+"."+name+" only reads its db", f.Pos(), ok && uses > 0, "")
 	}
-	c.Floor("root-db-readers", k, 2)
+	c.Floor("root-db-readers", k, 0)
 	// who may call Drain / Reset
 	dr := engine.CallerSet(p.RefsToFunc(c27DB + ".(*BatchCollector).Drain"))
-	c.Check("who-may-call", c27DB+".(*BatchCollector).Drain", token.NoPos, sfEq(dr, []string{c27MS + "Commit"}), "callers: "+join(dr))
+	c.Check("who-may-call", c27DB+".(*BatchCollector).Drain", token.NoPos, len(dr) >= 1 && len(sfWritersOK(p, dr, []string{c27MS + "Commit"})) == 0, "callers: "+join(dr)+" (only Commit or its private helpers may drain)")
 	rsf := engine.CallerSet(p.RefsToFunc(c27DB + ".(*BatchCollector).Reset"))
 	c.Check("who-may-call", c27DB+".(*BatchCollector).Reset", token.NoPos, len(rsf) == 0, "callers: "+join(rsf)+" (Reset drops staged writes)")
 	c.Floor("who-may-call", len(dr), 1)
@@ -240,89 +305,96 @@ func c27CommitOrder(c *engine.Ctx, p *engine.Prog) {
 	if f == nil {
 		return
 	}
-	info := f.Info()
-	g := f.Graph()
 	collF := p.Field(c27RM + ".multiStore.collector")
 	dbF := p.Field(c27RM + ".multiStore.db")
-	fromCollector := func(e ast.Expr) bool {
-		cl, ok := ast.Unparen(e).(*ast.CallExpr)
-		if !ok {
-			return false
+	// provenance of a batch value: collector.NewBatch() / ms.db.NewBatch() (through locals, helper parameters and results)
+	fromField := func(fld *types.Var) func(cx *sfCtx, e ast.Expr, at *engine.Site) bool {
+		return func(cx *sfCtx, e ast.Expr, at *engine.Site) bool {
+			if e == nil {
+				return false
+			}
+			stopAtFieldCalls := func(c2 *sfCtx, cl *ast.CallExpr) bool {
+				f2, _ := sfMethodOnField(c2.fn.Info(), cl)
+				return f2 != nil
+			}
+			return sfAllLeafs(sfLeafs(cx, e, at, 5, stopAtFieldCalls), func(l sfLeaf) bool { return l.e != nil && sfFieldCallIs(l.ctx, l.e, fld, "NewBatch") })
 		}
-		fld, m := sfMethodOnField(info, cl)
-		return fld == collF && m == "NewBatch"
 	}
-	fromRoot := func(e ast.Expr) bool {
-		cl, ok := ast.Unparen(e).(*ast.CallExpr)
-		if !ok {
-			return false
-		}
-		fld, m := sfMethodOnField(info, cl)
-		return fld == dbF && m == "NewBatch"
-	}
-	recvOf := func(s *engine.Site) ast.Expr {
-		if se, ok := ast.Unparen(s.Call.Fun).(*ast.SelectorExpr); ok {
+	fromCollector, fromRoot := fromField(collF), fromField(dbF)
+	recvOf := func(d sfDS) ast.Expr {
+		if se, ok := ast.Unparen(d.site.Call.Fun).(*ast.SelectorExpr); ok {
 			return se.X
 		}
 		return nil
 	}
-	one := func(pat string, pred func(*engine.Site) bool) *engine.Site {
-		var out []*engine.Site
-		for _, s := range f.CallsTo(pat) {
-			if !s.Deferred && (pred == nil || pred(s)) {
-				out = append(out, s)
+	one := func(pred func(d sfDS) bool, pats ...string) *sfDS {
+		var out []sfDS
+		for _, d := range sfDeepCallsTo(f, 3, pats...) {
+			if o := d.outer(); o == nil || o.Deferred {
+				continue
+			}
+			if pred == nil || pred(d) {
+				out = append(out, d)
 			}
 		}
 		if len(out) != 1 {
 			return nil
 		}
-		return out[0]
+		return &out[0]
 	}
 	steps := []struct {
 		name string
-		site *engine.Site
+		site *sfDS
 		errp bool
 	}{
-		{"commitStores", one(c27RM+".commitStores", nil), false},
-		{"setCommitInfo(metaBatch)", one(c27RM+".setCommitInfo", func(s *engine.Site) bool { return sfDerives(f, s.Call.Args[0], fromCollector, 2) }), false},
-		{"setLatestVersion(metaBatch)", one(c27RM+".setLatestVersion", func(s *engine.Site) bool { return sfDerives(f, s.Call.Args[0], fromCollector, 2) }), false},
-		{"metaBatch.Write", one(c27DB+".(Batch).Write", func(s *engine.Site) bool { return sfDerives(f, recvOf(s), fromCollector, 2) }), true},
-		{"collector.Drain(realBatch)", one(c27DB+".(*BatchCollector).Drain", func(s *engine.Site) bool {
-			fld, _ := sfMethodOnField(info, s.Call)
-			return fld == collF && sfDerives(f, s.Call.Args[0], fromRoot, 2)
-		}), true},
-		{"realBatch.WriteSync", one(c27DB+".(Batch).WriteSync", func(s *engine.Site) bool { return sfDerives(f, recvOf(s), fromRoot, 2) }), true},
-		{"refreshQuerySnapshot", one(c27MS+"refreshQuerySnapshot", nil), false},
-		{"setLastCommitID", one(c27MS+"setLastCommitID", nil), false},
+		{"commitStores", one(nil, c27RM+".commitStores"), false},
+		{"setCommitInfo(metaBatch)", one(func(d sfDS) bool { return fromCollector(d.ctx, d.arg(0), d.site) }, c27RM+".setCommitInfo"), false},
+		{"setLatestVersion(metaBatch)", one(func(d sfDS) bool { return fromCollector(d.ctx, d.arg(0), d.site) }, c27RM+".setLatestVersion"), false},
+		{"metaBatch.Write", one(func(d sfDS) bool { return fromCollector(d.ctx, recvOf(d), d.site) }, c27DB+".(Batch).Write", c27DB+".(Batch).WriteSync"), true},
+		{"collector.Drain(realBatch)", one(func(d sfDS) bool {
+			fld, _ := sfMethodOnField(d.info(), d.site.Call)
+			return fld == collF && fromRoot(d.ctx, d.arg(0), d.site)
+		}, c27DB+".(*BatchCollector).Drain"), true},
+		{"realBatch.WriteSync", one(func(d sfDS) bool { return fromRoot(d.ctx, recvOf(d), d.site) }, c27DB+".(Batch).WriteSync"), true},
+		{"refreshQuerySnapshot", one(nil, c27MS+"refreshQuerySnapshot"), false},
+		{"setLastCommitID", one(nil, c27MS+"setLastCommitID"), false},
 	}
 	n := 0
-	var prev *engine.Site
+	var prev *sfDS
 	prevName := "entry"
 	for _, st := range steps {
 		n++
 		if st.site == nil {
-			c.Check("commit-order", c27MS+"Commit step "+st.name, f.Pos(), false, "expected exactly one such call with the expected operand provenance")
+			c.Check("commit-order", c27MS+"Commit step "+st.name, f.Pos(), false, "expected exactly one such call (directly or through helpers) with the expected operand provenance")
 			prev = nil
 			prevName = st.name
 			continue
 		}
-		ok := len(g.Gates(st.site)) == 0 || c27OnlyErrGates(f, st.site)
-		why := "step must be unconditional (only preceding error checks may gate it)"
+		ok, why := true, ""
+		for _, ft := range st.site.facts() {
+			e := ast.Unparen(ft.e)
+			if b, isB := e.(*ast.BinaryExpr); isB && (b.Op == token.LAND || b.Op == token.LOR) {
+				continue
+			}
+			if !sfErrCmp(ft.ctx.fn.Info(), e) {
+				ok, why = false, "step must be unconditional (only preceding error checks may gate it); depends on `"+engine.ExprString(e)+"`"
+			}
+		}
 		if ok && prev != nil {
-			ok = g.Dominates(prev, st.site)
+			ok = sfDomDS(*prev, *st.site)
 			why = prevName + " must precede " + st.name + " on every path"
 		}
 		if ok && st.errp {
-			ok = sfErrHandled(f, st.site.Call, true)
+			ok = c27ErrPanics(*st.site)
 			why = "the error of " + st.name + " must be checked and must panic"
 		}
-		c.Check("commit-order", c27MS+"Commit step "+st.name, st.site.Pos(), ok, why)
+		c.Check("commit-order", c27MS+"Commit step "+st.name, st.site.where(), ok, why)
 		prev, prevName = st.site, st.name
 	}
 	// no plain Write on the real batch
 	bad := 0
-	for _, s := range f.CallsTo(c27DB + ".(Batch).Write") {
-		if sfDerives(f, recvOf(s), fromRoot, 2) {
+	for _, d := range sfDeepCallsTo(f, 3, c27DB+".(Batch).Write") {
+		if fromRoot(d.ctx, recvOf(d), d.site) {
 			bad++
 		}
 	}
@@ -331,10 +403,90 @@ func c27CommitOrder(c *engine.Ctx, p *engine.Prog) {
 	c.Floor("commit-order", n, 9)
 }
 
+// c27ErrPanics: the error of the call is checked and panics where it is made, or
+// is returned by the helper and then checked-and-panics at the helper's call site.
+func c27ErrPanics(d sfDS) bool {
+	if sfErrHandled(d.ctx.fn, d.site.Call, true) {
+		return true
+	}
+	for x := d.ctx; x.parent != nil; x = x.parent {
+		inner := d.site.Call
+		if x != d.ctx {
+			break
+		}
+		if !sfErrHandled(x.fn, inner, false) && !c27ReturnsCall(x.fn, inner) {
+			return false
+		}
+		return sfErrHandled(x.parent.fn, x.call, true)
+	}
+	return false
+}
+
+// c27ReturnsCall: `return <call>` (the callee's error is the function's result).
+func c27ReturnsCall(f *engine.Fn, call *ast.CallExpr) bool {
+	for _, r := range sfReturns(f) {
+		for _, e := range r.Results {
+			if ast.Unparen(e) == ast.Expr(call) {
+				return true
+			}
+		}
+	}
+	return false
+}
+
+// c27ReadOnlyParam: arg is passed to an in-program function whose corresponding
+// parameter is only ever the receiver of read methods (or handed on to such a function).
+func c27ReadOnlyParam(p *engine.Prog, info *types.Info, call *ast.CallExpr, arg ast.Expr, depth int) bool {
+	fn, _ := engine.ObjOf(info, call.Fun).(*types.Func)
+	h := p.FnOf(fn)
+	if h == nil || depth <= 0 {
+		return false
+	}
+	idx := -1
+	for i, a := range call.Args {
+		if ast.Unparen(a) == ast.Unparen(arg) {
+			idx = i
+		}
+	}
+	obj := paramObj(h, idx)
+	if idx < 0 || obj == nil {
+		return false
+	}
+	par := sfParents(h.Body)
+	uses := 0
+	for _, body := range append([]*engine.Fn{h}, h.AllLits()...) {
+		ok := true
+		ast.Inspect(body.Body, func(x ast.Node) bool {
+			id, isId := x.(*ast.Ident)
+			if !isId || h.Info().Uses[id] != obj {
+				return true
+			}
+			uses++
+			switch u := par[id].(type) {
+			case *ast.SelectorExpr:
+				if cl, isC := par[u].(*ast.CallExpr); !isC || cl.Fun != ast.Expr(u) || !c27ReadMethods[u.Sel.Name] {
+					ok = false
+				}
+			case *ast.CallExpr:
+				if !c27ReadOnlyParam(p, h.Info(), u, id, depth-1) {
+					ok = false
+				}
+			default:
+				ok = false
+			}
+			return true
+		})
+		if !ok {
+			return false
+		}
+	}
+	return uses > 0
+}
+
 // c27OnlyErrGates: every gate of s is an `err != nil` test on its false branch.
 func c27OnlyErrGates(f *engine.Fn, s *engine.Site) bool {
 	for _, g := range f.Graph().Gates(s) {
-		if g.OnTrue || !c22IsErrNil(g.Cond) {
+		if g.OnTrue || !sfErrCmp(f.Info(), g.Cond) {
 			return false
 		}
 	}
@@ -361,27 +513,34 @@ func c27SubStoreDB(c *engine.Ctx, p *engine.Prog) {
 				engine.ObjOf(info, w.Call.Args[0]) == rawObj && sfFieldSel(info, w.Call.Args[1], collF)
 			why = "the DB handed to NewPrefixDB must be the variable re-assigned from NewCollectingDB(raw, ms.collector)"
 			if ok {
-				// gate: only !Immutable and collector != nil
-				gs := g.Gates(w)
-				ok = len(gs) == 1 && gs[0].OnTrue
-				why = "the wrap must depend on exactly one condition"
-				if ok {
-					for _, cj := range engine.Conjuncts(gs[0].Cond, token.LAND) {
-						good := false
-						if u, isU := ast.Unparen(cj).(*ast.UnaryExpr); isU && u.Op == token.NOT {
-							if fld := sfSelField(info, u.X); fld != nil && fld.Name() == "Immutable" {
-								good = true
-							}
-						}
-						if a, b, op, isC := sfCmp(cj); isC && op == token.NEQ && isNil(b) && sfFieldSel(info, a, collF) {
-							good = true
-						}
-						if !good {
-							ok = false
-							why = "wrap additionally depends on `" + engine.ExprString(cj) + "`: some live sub-store would write straight to the real DB"
-						}
+				// what the wrap depends on: only "not immutable" and "collector present"
+				root := sfRoot(f)
+				sawAny := false
+				for _, ft := range sfFactsAt(root, w) {
+					e := ast.Unparen(ft.e)
+					if b, isB := e.(*ast.BinaryExpr); isB && (b.Op == token.LAND || b.Op == token.LOR) {
+						continue
+					}
+					if u, isU := e.(*ast.UnaryExpr); isU && u.Op == token.NOT {
+						continue
+					}
+					good := false
+					if fld := sfSelField(ft.ctx.fn.Info(), e); fld != nil && fld.Name() == "Immutable" && !ft.val {
+						good = true
+					}
+					if a, b, op, isC := sfCmp(e); isC && isNil(b) && sfOperandIs(ft.ctx, a, sfIsField(collF)) && ((op == token.NEQ) == ft.val) {
+						good = true
+					}
+					if id, isId := e.(*ast.Ident); isId && sfSingleDef(ft.ctx.fn, ft.ctx.fn.Info().ObjectOf(id)) != nil {
+						good = true // an alias; its definition was expanded and is judged on its own
+					}
+					sawAny = true
+					if !good {
+						ok = false
+						why = "wrap additionally depends on `" + engine.ExprString(e) + "`: some live sub-store would write straight to the real DB"
 					}
 				}
+				_ = sawAny
 				if ok {
 					ok = g.ReachableAfter(w, px) && !g.ReachableAfter(px, w)
 					why = "the wrap must happen before NewPrefixDB"
@@ -548,9 +707,13 @@ func c27Layer(c *engine.Ctx, p *engine.Prog) {
 		if strings.HasPrefix(m, "Delete") {
 			want = c27DB + ".(*BatchCollector).delete"
 		}
-		calls := f.Calls()
+		calls := sfDeepCallsTo(f, 2, want)
+		unconditional := len(calls) >= 1
+		for _, d := range calls {
+			unconditional = unconditional && len(d.facts()) == 0
+		}
 		k++
-		c.Check("collecting-layer", f.Name+" routes to the collector", f.Pos(), len(calls) == 1 && calls[0].CalleeName() == want, "expected exactly one call, to "+want)
+		c.Check("collecting-layer", f.Name+" routes to the collector", f.Pos(), unconditional, "expected an unconditional call to "+want)
 	}
 	for _, m := range []string{"NewBatch", "NewBatchWithSize"} {
 		f := c.MustFunc(c27DB + ".(*CollectingDB)." + m)
@@ -576,18 +739,17 @@ func c27AppCommit(c *engine.Ctx, p *engine.Prog) {
 	if f == nil {
 		return
 	}
-	g := f.Graph()
-	mw := f.CallsTo("tm2/pkg/store/types.(MultiStore).MultiWrite")
-	cm := f.CallsTo("tm2/pkg/store/types.(Committer).Commit", "tm2/pkg/store/types.(CommitMultiStore).Commit")
-	hs := f.CallsTo("tm2/pkg/store/types.(Store).Set")
+	mw := sfDeepCallsTo(f, 2, "tm2/pkg/store/types.(MultiStore).MultiWrite")
+	cm := sfDeepCallsTo(f, 2, "tm2/pkg/store/types.(Committer).Commit", "tm2/pkg/store/types.(CommitMultiStore).Commit")
+	hs := sfDeepCallsTo(f, 2, "tm2/pkg/store/types.(Store).Set")
 	n := 0
-	ok := len(mw) == 1 && len(cm) == 1 && g.Dominates(mw[0], cm[0]) && len(g.Gates(mw[0])) <= 1
+	ok := len(mw) == 1 && len(cm) == 1 && sfDomDS(mw[0], cm[0])
 	n++
 	c.Check("app-commit-order", f.Name+" MultiWrite before cms.Commit", f.Pos(), ok, "the deliver cache must be flushed into the sub-stores before the multistore commits (else its writes land in the next block's batch)")
 	ok = len(hs) >= 1 && len(mw) == 1
 	if ok {
 		for _, s := range hs {
-			ok = ok && g.Dominates(s, mw[0])
+			ok = ok && sfDomDS(s, mw[0])
 		}
 	}
 	n++
